@@ -153,13 +153,12 @@ def _cmp_site(run, fn, node, block, env, where, cmpname, subj_want, idx_want):
         neg, subj, name, arg_, pats = cc[0].groups()
         sites.add((subj, name, arg_))
         ps = {x.strip() for x in pats.split('|')}
+        if neg:
+            # `cmp != Greater` is `cmp is Less | Equal`
+            ps = {'Ordering::Less', 'Ordering::Equal', 'Ordering::Greater'} - ps
         if ef:
             effs.add(frozenset(ef))
-            if neg:
-                ok_rows = False
             upd |= ps
-        elif neg:
-            keep |= {'Ordering::Less', 'Ordering::Equal', 'Ordering::Greater'} - ps
         else:
             keep |= ps
     cmp_ok = ok_rows and sites == {(subj_want, cmpname, 'CACHE')}
@@ -251,15 +250,14 @@ def extreme_kernel(run, m, rev, arg):
         okm = False
         det = 'no `%s.map(..)`' % I
         if len(maps) == 1:
+            from algebra import parse_poly
             cl = peel(maps[0]['ch'][1])
-            env2 = Env()
-            p = norm(cl['ch'][0], env2)
-            pn = cl['params'][0]['name']
-            u = [a for a in p.atoms() if a[0] == 'fn' and a[1] == 'unwrap_or']
-            uo = [y for y in walk(cl) if y.get('k') == 'MethodCall' and y['method'] == 'unwrap_or']
-            okm = len(u) == 1 and p == sym(pn) - Poly.atom(u[0]) + Poly.const(1) and len(uo) == 1 and \
-                m.idx_tag(uo[0]['ch'][0]) == 'OLDIDXOPT' and src(peel(uo[0]['ch'][1])) == '0'
-            det = 'offset = %s' % p.show()
+            en_c = dtree.env_at(m.body, cl['ch'][0], dict(env)) if cl.get('k') == 'Closure' else {}
+            body_s = dtree.canon(cl['ch'][0], en_c) if cl.get('k') == 'Closure' else '?'
+            p = parse_poly(body_s)
+            want_p = parse_poly('((a0 - OLDIDXOPT.unwrap_or(0)) + 1)')
+            okm = p == want_p
+            det = 'offset = %s' % body_s
         run.ob('EXT.result', fn, '1-based offset from the window start', okm,
                loc(maps[0]) if maps else fn.loc(), det)
     else:
@@ -422,80 +420,141 @@ def zscore(run, m):
            and any('not_none' in c for c in conds), fn.loc(), 'conditions: %s' % conds)
 
 
+def _minmax_roles(m):
+    """The four caches of ts_vminmaxnorm by role: the maximum's value cache starts from (and is
+    re-seeded with) the type's minimum, the minimum's from the type's maximum; each index cache
+    is the variable assigned a position in the same branch as its value cache."""
+    import dtree as D
+    m.classify()
+    roles = {}
+    pre_env = {}
+    for st in m.k.pre:
+        if st.get('k') == 'Let' and 'init' in st:
+            for p_, v_ in ([(st['pat'], st['init'])] if st['pat'].get('k') == 'Binding' else
+                           list(zip(st['pat'].get('ch', []), peel(st['init']).get('ch', [])))
+                           if peel(st['init']).get('k') == 'Tup' else []):
+                if p_.get('k') == 'Binding':
+                    c = D.canon(v_, {})
+                    if c == 'Number::min_()':
+                        roles[p_['local']] = 'MAXV'
+                    elif c == 'Number::max_()':
+                        roles[p_['local']] = 'MINV'
+    # index caches: assigned next to the value cache
+    for blk in walk(m.body):
+        if blk.get('k') != 'Block':
+            continue
+        asg = [peel(s_.get('e', {})) for s_ in blk.get('stmts', []) if s_['k'] in ('Semi', 'Expr')]
+        asg = [a for a in asg if a.get('k') == 'Assign' and peel(a['ch'][0]).get('res') == 'local']
+        tg = [peel(a['ch'][0])['local'] for a in asg]
+        for which, idxname in (('MAXV', 'MAXI'), ('MINV', 'MINI')):
+            vl = [l for l, r in roles.items() if r == which]
+            if vl and vl[0] in tg:
+                for a in asg:
+                    l = peel(a['ch'][0])['local']
+                    r = peel(a['ch'][1])
+                    if l not in roles and r.get('k') == 'Path' and r.get('res') == 'local' and \
+                            (m.idx_tag(r) == 'END' or r.get('ty') == 'usize') and \
+                            asg.index(a) in (tg.index(vl[0]) - 1, tg.index(vl[0]) + 1):
+                        roles[l] = idxname
+    return roles
+
+
 def minmax(run, m):
+    from algebra import parse_poly
     fn = m.k.fn
-    nn = _nonnull_leaf_poly(m)
-    ok = len(nn) == 1
-    det = '%d non-null leaf/leaves' % len(nn)
-    if ok:
-        env = _env_for(m, nn[0])
-        p = norm(nn[0], env)
-        v, mn, mx = sym('NEW0'), sym('min'), sym('max')
-        want = (v - mn) * (mx - mn).inv()
-        ok = p == want
-        det = 'got %s ; expected %s' % (p.show(), want.show())
-    run.ob('NORM.formula', fn, 'min-max closed form', ok, loc(nn[0]) if nn else fn.loc(), det)
-    conds = [src(peel(x['ch'][0])) for x in walk(m.body) if x.get('k') == 'If' and
-             nn and any(y is nn[0] for y in walk(x['ch'][1]))]
-    run.ob('NORM.formula', fn, 'min-max guards', any('(max != min)' in c for c in conds) and
-           any('not_none' in c for c in conds), fn.loc(), 'conditions: %s' % conds)
-    # rescan structure
-    mt = [x for x in walk(m.body) if x.get('k') == 'Match' and
-          src(peel(x['ch'][0])) == '((max_idx < start), (min_idx < start))']
-    okm = len(mt) == 1
-    det = 'dispatch on (max_idx < start, min_idx < start): %d' % len(mt)
-    if okm:
-        arms = {pat_src(a['pat']): a['body'] for a in mt[0]['arms']}
-        okm = set(arms) == {'(true, false)', '(false, true)', '(true, true)', '(false, false)'}
-        env = {}
-        def table_of(body):
-            lp = [x for x in walk(body) if x.get('k') == 'For']
-            if len(lp) != 1:
-                return None, None
-            r = peel(lp[0]['ch'][0])
-            rng = (m.idx_tag(peel(r['ch'][0])) == 'OLDIDX' and m.idx_tag(peel(r['ch'][1])) == 'END'
-                   and not r['incl']) if r.get('k') == 'Range' else False
-            e2 = {lp[0]['pat']['local']: 'i'}
-            t = dtree.table(lp[0]['ch'][1], e2)
-            return rng, t
-        MAXU = ('max = self.uget(i)', 'max_idx = i')
-        MINU = ('min = self.uget(i)', 'min_idx = i')
-        V = 'VALID(self.uget(i))'
-        def rows(*specs):
-            return {(frozenset(c), '()', tuple(e)) for c, e in specs}
-        want = {
-            '(true, false)': rows(([V, '(max <= self.uget(i))'], MAXU), ([V, '(self.uget(i) < max)'], ()),
-                                  (['!' + V], ())),
-            '(false, true)': rows(([V, '(self.uget(i) <= min)'], MINU), ([V, '(min < self.uget(i))'], ()),
-                                  (['!' + V], ())),
-            '(true, true)': rows(([V, '(max <= self.uget(i))', '(self.uget(i) <= min)'], MAXU + MINU),
-                                 ([V, '(max <= self.uget(i))', '(min < self.uget(i))'], MAXU),
-                                 ([V, '(self.uget(i) < max)', '(self.uget(i) <= min)'], MINU),
-                                 ([V, '(self.uget(i) < max)', '(min < self.uget(i))'], ()),
-                                 (['!' + V], ())),
-        }
-        for k, w in want.items():
-            rng, t = table_of(arms.get(k, {}))
-            good = rng is True and t == w
-            run.ob('NORM.rescan', fn, 'arm %s' % k, good, loc(arms[k]) if k in arms else fn.loc(),
-                   'range start..end: %s; table %s' % (rng, dtree.show(t) if t else None))
-        # seeds
-        seeds = {k: sorted(src(u) for u in walk(b) if u.get('k') == 'Assign' and
-                           not any(u is y for lp in walk(b) if lp.get('k') == 'For' for y in walk(lp)))
-                 for k, b in arms.items()}
-        s_ok = seeds.get('(true, false)') == ['max = Number::min_()'] and \
-            seeds.get('(false, true)') == ['min = Number::max_()'] and \
-            seeds.get('(true, true)') == ['max = Number::min_()', 'min = Number::max_()']
-        run.ob('NORM.rescan', fn, 'rescan seeds', s_ok, loc(mt[0]), str(seeds))
-    run.ob('NORM.rescan', fn, 'dispatch', okm, loc(mt[0]) if mt else fn.loc(), det)
-    # current element folded in with >= / <=
-    cur = [x for x in walk(m.body) if x.get('k') == 'If' and 'VALID(NEW0)' in m.preds(x['ch'][0])
-           and len(x['ch']) == 3 and nn and any(y is nn[0] for y in walk(x['ch'][1]))]
-    okc = False
-    if len(cur) == 1:
-        ifs = [src(peel(x['ch'][0])) + ' => ' + src(x['ch'][1]) for x in walk(cur[0]['ch'][1])
-               if x.get('k') == 'If' and src(peel(x['ch'][0])) in ('(v >= max)', '(v <= min)')]
-        okc = sorted(i.replace(';;', ';') for i in ifs) == \
-            sorted(['(v >= max) => max = v; max_idx = end;', '(v <= min) => min = v; min_idx = end;'])
-        det = str(ifs)
-    run.ob('NORM.rescan', fn, 'current element folded in', okc, fn.loc(), det)
+    roles = _minmax_roles(m)
+    ok_roles = sorted(roles.values()) == ['MAXI', 'MAXV', 'MINI', 'MINV']
+    run.ob('NORM.rescan', fn, 'cache variables', ok_roles, fn.loc(),
+           'value / index caches by role: %s' % sorted(roles.values()))
+    if not ok_roles:
+        return
+    env = {lid: t for lid, t in m.tags.items()}
+    env.update(roles)
+    cnt = acc.count_acc(m)
+    if cnt is not None:
+        env[cnt] = 'n'
+    u = dtree.unprime
+    t = dtree.table(m.body, dict(env))
+    # closed form and guards
+    nonnull = [(cs, l, ef) for cs, l, ef in t if l != 'NULL']
+    okf = bool(nonnull)
+    det = '%d non-null path(s)' % len(nonnull)
+    want = (parse_poly('NEW0') - parse_poly('MINV')) * (parse_poly('MAXV') - parse_poly('MINV')).inv()
+    for cs, l, ef in nonnull:
+        csu = {u(c) for c in cs}
+        if parse_poly(u(l)) != want:
+            okf = False
+            det = 'value %s' % l
+    run.ob('NORM.formula', fn, 'min-max closed form', okf, fn.loc(), det + ' ; expected ' + want.show())
+    okg = bool(nonnull) and all({'(min_periods <= n)', 'VALID(NEW0)'} <= {u(c) for c in cs} and
+                                ('(MAXV != MINV)' in {u(c) for c in cs} or '(MINV != MAXV)' in {u(c) for c in cs})
+                                for cs, l, ef in nonnull)
+    run.ob('NORM.formula', fn, 'min-max guards', okg, fn.loc(),
+           'non-null only with n >= min_periods, a valid element and max != min')
+    # rescans: one loop per combination of expired caches, over start..end, re-seeded first
+    V = 'VALID(self.uget(i))'
+    UPD = {'MAX': ('(MAXV <= self.uget(i))', '(self.uget(i) < MAXV)', ('MAXV = self.uget(i)', 'MAXI = i')),
+           'MIN': ('(self.uget(i) <= MINV)', '(MINV < self.uget(i))', ('MINV = self.uget(i)', 'MINI = i'))}
+    EXP = {'MAX': '(MAXI < OLDIDXOPT)', 'MIN': '(MINI < OLDIDXOPT)'}
+    SEED = {'MAX': 'MAXV = Number::min_()', 'MIN': 'MINV = Number::max_()'}
+    loops = [x for x in walk(m.body) if x.get('k') == 'For']
+    seen = set()
+    for lp in loops:
+        g = dtree.guards_at(m.body, lp, dict(env))
+        gc = {u(c) for c in (g[0] if g else [])}
+        which = tuple(k for k in ('MAX', 'MIN') if EXP[k] in gc)
+        key = 'rescan under expired %s' % (' + '.join(which) or 'nothing')
+        en_l = dict(g[1]) if g else dict(env)
+        rng = u(dtree.canon(lp['ch'][0], en_l))
+        for b_ in _pat_binds(lp['pat']):
+            en_l[b_['local']] = 'i'
+        bt = dtree.Table((frozenset(u(c) for c in cs), l, tuple(sorted(u(e) for e in ef)))
+                         for cs, l, ef in dtree.table(lp['ch'][1], en_l))
+        rows = [(frozenset({'!' + V}), '()', ())]
+        import itertools
+        for combo in itertools.product((True, False), repeat=len(which)):
+            cs = {V}
+            ef = []
+            for k, hit in zip(which, combo):
+                cs.add(UPD[k][0] if hit else UPD[k][1])
+                if hit:
+                    ef.extend(UPD[k][2])
+            rows.append((frozenset(cs), '()', tuple(sorted(ef))))
+        good = bool(which) and rng == 'OLDIDXOPT..END' and 'VALID(OLDIDXOPT)' in gc and bt == dtree.Table(rows)
+        # the expired caches are re-seeded from the sentinel before the loop, in the same branch
+        seeds = set()
+        for blk in walk(m.body):
+            if blk.get('k') == 'Block' and (any(peel(s_.get('e', {})) is lp for s_ in blk.get('stmts', [])) or
+                                            ('expr' in blk and peel(blk['expr']) is lp)):
+                for s_ in blk['stmts']:
+                    x_ = peel(s_.get('e', {}))
+                    if x_ is lp:
+                        break
+                    if x_.get('k') in ('Assign',):
+                        seeds.add(u(dtree.canon(x_, dict(g[1]) if g else dict(env))))
+                    if x_.get('k') == 'Block' and x_.get('multi_assign'):
+                        for s2 in x_['stmts']:
+                            seeds.add(u(dtree.canon(s2['e'], dict(g[1]) if g else dict(env))))
+        good_seed = seeds == {SEED[k] for k in which}
+        run.ob('NORM.rescan', fn, key, good and good_seed, loc(lp),
+               'range %s; seeds %s; table %s' % (rng, sorted(seeds), dtree.show(bt)))
+        seen.add(which)
+    run.ob('NORM.rescan', fn, 'dispatch', seen == {('MAX',), ('MIN',), ('MAX', 'MIN')}, fn.loc(),
+           'rescan loops for expired combinations %s' % sorted(seen))
+    # current element folded in with >= / <= (most recent wins), before the result is read
+    folds = {}
+    for x in walk(m.body):
+        if x.get('k') != 'If' or any(x is y for lp in loops for y in walk(lp)):
+            continue
+        g = dtree.guards_at(m.body, x, dict(env))
+        if not g or 'VALID(NEW0)' not in {u(c) for c in g[0]}:
+            continue
+        c = [u(c_) for c_ in dtree.conj(x['ch'][0], dict(g[1]))]
+        for k, cond, eff in (('MAX', '(MAXV <= NEW0)', {'MAXV = NEW0', 'MAXI = END'}),
+                             ('MIN', '(NEW0 <= MINV)', {'MINV = NEW0', 'MINI = END'})):
+            if c == [cond]:
+                bt = dtree.table(x, dict(g[1]))
+                upd = [set(u(e) for e in ef) for cs, l, ef in bt if ef]
+                folds[k] = upd == [eff] and len(x['ch']) == 2
+    run.ob('NORM.rescan', fn, 'current element folded in', folds == {'MAX': True, 'MIN': True}, fn.loc(),
+           'v >= max replaces (max, idx), v <= min replaces (min, idx): %s' % folds)
